@@ -2,7 +2,7 @@
 from verif import *
 from props.routers import *
 
-THEOREMS = ['c10_single_bound', 'c10_error_code_is_replier_already_bound']
+THEOREMS = ['c10_single_bound', 'c10_error_code_is_replier_already_bound', 'c10_refused_replier_told_then_closed']
 
 
 def run(tier, seed, replay=None):
